@@ -33,6 +33,10 @@ def run(ctx):
     ctx.guard(rule_c, ctx, ix)
     ctx.guard(rule_d, ctx, ix)
     ctx.guard(rule_e, ctx, ix, f)
+    # the selection of a drawn region is the region's own containment test: its pre-selection boxes must not be inverted
+    from ..report import BorrowedCtx
+    from .C08 import rule_f as _boxes
+    ctx.guard(_boxes, BorrowedCtx(ctx, {'C08.f': 'C09.f'}), ix)
 
 
 # ---------------------------------------------------------------------------------------
